@@ -1,4 +1,8 @@
 import Bt.Driver.Engine
+import Bt.Driver.Weigh
+import Bt.Driver.Select
+import Bt.Driver.Stack
+import Bt.Driver.Sched
 /- The driver: one request per line on stdin, one answer per line on stdout. -/
 open Bt.Driver
 
@@ -6,6 +10,10 @@ def dispatch (line : String) : String :=
   let l := line.trimAscii.toString
   match l.splitOn " " with
   | "step" :: _ => handleStep (l.drop 5).toString
+  | "sched" :: _ => handleSched (l.drop 6).toString
+  | "stack" :: _ => handleStack (l.drop 6).toString
+  | "select" :: _ => handleSelect (l.drop 7).toString
+  | "weigh" :: _ => handleWeigh (l.drop 6).toString
   | _ => "bad unknown-request"
 
 partial def loop (h : IO.FS.Stream) (out : IO.FS.Stream) : IO Unit := do
